@@ -593,10 +593,10 @@ func (r *runner) runAll() {
 		vFloat(math.Inf(-1)), vFloat(math.NaN()), vFloat(-4.5e15), vFloat(-255.75)}
 	idx = 0
 	for _, v := range edge {
-		// keyed by Any for floats, so that NaN and the infinities meet the directive too (the default Float
-		// key type does not accept them)
+		// finite floats keyed by Any; NaN and the infinities keyed by Float: the default Float key type is the unbounded
+		// Float type, which accepts the types of the infinities and is the type of NaN, so they meet the directive too
 		key := v.kindName()
-		if v.K == "float" {
+		if f, ok := floatOf(v); v.K == "float" && ok && !math.IsNaN(f) && !math.IsInf(f, 0) {
 			key = "Any"
 		}
 		for _, l := range "dxXobB" {
